@@ -2,7 +2,7 @@
 (never touches /repo).  usage: seed_matrix.py [names...]  (default: all of /verif/seeded)"""
 import json, os, re, subprocess, sys
 WT = "/tmp/wt/matrix"
-names = sys.argv[1:] or sorted(os.listdir("/verif/seeded"))
+names = [a for a in sys.argv[1:] if not a.startswith("--")] or sorted(os.listdir("/verif/seeded"))
 if not os.path.isdir(WT):
     subprocess.run(["git", "-C", "/repo", "worktree", "add", "-q", "--detach", WT, "HEAD"], check=True)
 env = dict(os.environ, XMC_REPO=WT)
@@ -12,9 +12,13 @@ for name in names:
     subprocess.run("git checkout -q -- . && git clean -fdq", shell=True, cwd=WT)
     if subprocess.run(["git", "apply", f"{d}/patch.diff"], cwd=WT).returncode:
         print(name, "patch does not apply"); continue
-    row = {}
-    for i in range(1, 21):
-        cid = f"C{i:02d}"
+    row = dict(meta.get("checks", {}))
+    touched = set(re.findall(r"^\+\+\+ b/xgcm/(\w+)\.py", open(f"{d}/patch.diff").read(), re.M))
+    REL = {"padding": "C02 C03 C04 C05 C11 C12 C13 C18", "grid_ufunc": "C01 C02 C06 C11 C13 C15 C18", "grid": "C01 C02 C09 C10 C16 C18 C20",
+           "transform": "C07 C08 C13 C18 C20", "metrics": "C10 C12 C16", "comodo": "C14 C12 C13", "sgrid": "C14 C12 C13", "metadata_parsers": "C14 C12 C13",
+           "gridops": "C01 C06 C09 C18", "axis": "C01 C02 C20"}
+    ids = sorted({c for t in touched for c in REL.get(t, "").split()} | {meta["property"]}) if "--all" not in sys.argv else [f"C{i:02d}" for i in range(1, 21)]
+    for cid in ids:
         p = subprocess.run(["/venv/bin/python", "-m", "xmc.run", cid, "--tier", "quick", "--no-evidence"], cwd="/verif", env=env, capture_output=True, text=True)
         cls = re.search(r"recorded violation\(s\) in \d+ class\(es\): (.*)", p.stdout)
         row[cid] = dict(rc=p.returncode, classes=(cls.group(1)[:300] if cls else ""))
